@@ -242,67 +242,56 @@ fn compile_mint_block(tx: &tir::Tx) -> Result<Option<primitives::Mint>, Error> {
         return Ok(None);
     }
 
-    let mints: Vec<_> = tx
-        .mints
-        .iter()
-        .map(|x| coercion::expr_into_assets(&x.amount))
-        .collect::<Result<Vec<_>, _>>()?
-        .iter()
-        .flatten()
-        .map(|x| compile_native_asset_for_mint(x, false))
-        .collect::<Result<Vec<_>, _>>()?;
-
-    let mints = asset_math::aggregate_assets(mints);
-
-    let burns = tx
-        .burns
-        .iter()
-        .map(|x| coercion::expr_into_assets(&x.amount))
-        .collect::<Result<Vec<_>, _>>()?
-        .iter()
-        .flatten()
-        .map(|x| compile_native_asset_for_mint(x, true))
-        .collect::<Result<Vec<_>, _>>()?;
-
-    let burns = asset_math::aggregate_assets(burns);
-
-    let all = match (mints, burns) {
-        (Some(mints), Some(burns)) => asset_math::aggregate_assets([mints, burns]),
-        (Some(mints), None) => Some(mints),
-        (None, Some(burns)) => Some(burns),
-        (None, None) => None,
-    };
-
-    ensure_mint_totals_fit(tx)?;
-
-    Ok(all)
-}
-
-/// The aggregation above drops an entry whose total overflows the ledger's signed 64-bit quantity
-/// (it cannot tell an overflow from a total of zero), so the exact totals are checked here.
-fn ensure_mint_totals_fit(tx: &tir::Tx) -> Result<(), Error> {
-    let mut totals: BTreeMap<(Vec<u8>, Vec<u8>), i128> = BTreeMap::new();
+    // exact totals per asset class: summing step by step in 64 bits cannot tell an intermediate
+    // overflow from a total of zero
+    let mut totals: BTreeMap<primitives::Hash<28>, BTreeMap<primitives::Bytes, i128>> =
+        BTreeMap::new();
 
     let blocks = tx
         .mints
         .iter()
-        .map(|x| (x, 1))
-        .chain(tx.burns.iter().map(|x| (x, -1)));
+        .map(|x| (x, false))
+        .chain(tx.burns.iter().map(|x| (x, true)));
 
-    for (block, sign) in blocks {
-        for asset in coercion::expr_into_assets(&block.amount)? {
-            let policy = coercion::expr_into_bytes(&asset.policy)?.to_vec();
-            let name = coercion::expr_into_bytes(&asset.asset_name)?.to_vec();
-            let amount = coercion::expr_into_number(&asset.amount)?;
-
-            let total = totals.entry((policy, name)).or_insert(0);
-            *total = total.saturating_add(amount.saturating_mul(sign));
+    for (block, is_burn) in blocks {
+        for asset in coercion::expr_into_assets(&block.amount)?.iter() {
+            for (policy, names) in compile_native_asset_for_mint(asset, is_burn)? {
+                for (name, amount) in names {
+                    let total = totals.entry(policy).or_default().entry(name).or_insert(0);
+                    *total += i64::from(amount) as i128;
+                }
+            }
         }
     }
 
-    match totals.values().find(|x| i64::try_from(**x).is_err()) {
-        Some(x) => Err(Error::CoerceError(format!("{x}"), "mint total".to_string())),
-        None => Ok(()),
+    let mut all = BTreeMap::new();
+
+    for (policy, names) in totals {
+        let mut assets = BTreeMap::new();
+
+        for (name, total) in names {
+            // quantities that cancel out leave no entry behind
+            if total == 0 {
+                continue;
+            }
+
+            let total = i64::try_from(total)
+                .ok()
+                .and_then(|x| primitives::NonZeroInt::try_from(x).ok())
+                .ok_or_else(|| Error::CoerceError(format!("{total}"), "mint total".to_string()))?;
+
+            assets.insert(name, total);
+        }
+
+        if !assets.is_empty() {
+            all.insert(policy, assets);
+        }
+    }
+
+    if all.is_empty() {
+        Ok(None)
+    } else {
+        Ok(Some(all))
     }
 }
 
